@@ -177,6 +177,14 @@ def instantiate(L, pick):
             out["w"] = pick(OPTWIDTHS if neg else WIDTHS)
     if "x" in L:
         out["x"] = instantiate(L["x"], pick)
+        # a RegularArray over a NumpyArray that it covers exactly is, half of the time, given as ONE multidimensional
+        # NumpyArray (same type, same value): NumpyArray's own strided getitem/reduce/... paths
+        x = out["x"]
+        if (c == "Regular" and x.get("c") == "Numpy" and L["size"] > 0 and "p" not in x and not L.get("p")
+                and pick([0, 1]) == 1):
+            inner = x.get("shape", [len(x["d"])])
+            if inner[0] % L["size"] == 0 and inner[0] > 0:
+                return {"c": "Numpy", "dt": x["dt"], "d": x["d"], "shape": [inner[0] // L["size"], L["size"]] + inner[1:]}
     if "xs" in L:
         out["xs"] = [instantiate(x, pick) for x in L["xs"]]
     return out
@@ -208,6 +216,8 @@ def slice_item(it):
         return {"k": "fields", "keys": it["keys"]}
     if k == "arr":
         return {"k": "arr", "data": it["is"]}
+    if k == "arr2":
+        return {"k": "arr", "data": it["is"], "shape": [len(it["is"]) // it["cols"], it["cols"]]}
     if k == "missing":
         vals = [x for x in it["is"] if x != nb]
         idx = []
@@ -264,6 +274,8 @@ def steps_for(case, pick):
         op = {"op": "num", "src": "a", "axis": a["axis"]}
     elif act == "localindex":
         op = {"op": "localindex", "src": "a", "axis": a["axis"]}
+    elif act == "isnone":
+        op = {"op": "bytemask", "src": "a"}
     elif act == "flatten":
         op = {"op": "flatten", "src": "a", "axis": a["axis"]}
     elif act == "pad":
@@ -381,6 +393,11 @@ def judge(case, res):
                 return "tojson raised: " + r["json_exc"]
             if r.get("json_skipped"):
                 return "result fails validity: %r" % r.get("valid")
+            if act == "isnone":
+                got = [1 if x else 0 for x in r.get("index", [])]
+                if not values_equal(got, vjson_to_py(exp["v"])):
+                    return "value differs: library bytemask %s" % json.dumps(got)
+                return None
             try:
                 got = json.loads(r["json"])
             except Exception as e:
